@@ -32,6 +32,16 @@ CHECKS["C19"] = ("exploration",
     "cost-raising parameter edits (N>2048) are not generated.",
     "DESIGN.md section 3 / C19")
 
+CHECKS["C17"] = ("exploration",
+    "postcondition monitor on the real function over an exhaustively enumerated adversarial name alphabet, random unicode and router-captured names",
+    "contracts",
+    "Every call of the real path_join_safe is judged by the postcondition (ValueError, or an absolute normalized path with "
+    "commonpath(root, p) == root). The adversarial alphabet (dot/dot-dot/empty/drive-like segments x both separators x absolute "
+    "prefixes) is enumerated completely up to 4 (quick) / 6 (thorough) segments for 8 roots; random unicode and names captured "
+    "by the real Router from URLs are sampled on top. Exhaustive inside the stated bound, sampling outside it.",
+    "Trusted: os.path of this (POSIX) platform as the judge of containment. Windows drive semantics are not observable here.",
+    "DESIGN.md section 3 / C17")
+
 NOT_YET = {}
 
 
